@@ -2408,7 +2408,11 @@ class PyCdlib:
                 self._cdfp.seek(tmp_isohybrid.primary_gpt.header.backup_lba * 512)
                 tmp_isohybrid.parse_secondary_gpt_header(self._cdfp.read(512))
 
-                self._cdfp.seek((tmp_isohybrid.secondary_gpt.header.current_lba * 512) - (tmp_isohybrid.secondary_gpt.header.num_parts * 128))
+                secondary_parts_offset = (tmp_isohybrid.secondary_gpt.header.current_lba * 512) - (tmp_isohybrid.secondary_gpt.header.num_parts * 128)
+                if secondary_parts_offset < 0:
+                    # (A real file raises OSError for a negative offset.)
+                    raise pycdlibexception.PyCdlibInvalidISO('The backup GPT partition array lies before the start of the ISO')
+                self._cdfp.seek(secondary_parts_offset)
                 tmp_isohybrid.parse_secondary_gpt_partitions(self._cdfp.read(tmp_isohybrid.secondary_gpt.header.num_parts * 128))
 
             # We only save the object if it turns out to be a valid IsoHybrid.
